@@ -186,6 +186,19 @@ Theorem C02_stacked_map_zero_elsewhere : forall {V} (zero : V) (td : nat -> nat 
 Proof. exact @stacked_map_zero_elsewhere. Qed.
 Print Assumptions C02_stacked_map_zero_elsewhere.
 
+(* the stacked-time Jacobian as assembled: cell (equation i in period j, column of the spot) holds the diff of that
+   equation computed on the data of period j, seeded on the token that the spot is for that period *)
+Theorem C02_stacked_jacobian_entry : forall rho lg (l1 l2 : list (Z * tree RD)) m spots cte eid t k tok j col c,
+  (forall e, In e (map fst (l1 ++ (eid, t) :: l2)) -> NoDup (wrt_of m e)) ->
+  nth_error (wrt_of m eid) k = Some tok -> nth_error cte j = Some col ->
+  col_of (some_columns spots) (shifted tok col) = Some c ->
+  cell 0 (td2_of RD (stacked_td RD rho lg (l1 ++ (eid, t) :: l2) m cte))
+       (stacked_map (map fst (l1 ++ (eid, t) :: l2)) m spots cte)
+       (List.length l1 + List.length (map fst (l1 ++ (eid, t) :: l2)) * j)%nat c
+  = diff_of RD (eval_equation RD (shift_rho RD rho col) (ind RD tok) lg t).
+Proof. exact stacked_jacobian_entry. Qed.
+Print Assumptions C02_stacked_jacobian_entry.
+
 (* a matrix of the unsolved system (A, B with its lagged columns, D, F, G, J): entry (i, c) is the diff of equation
    eids[i] seeded on the token of column c; with C02_equation_diff_plain/_log it is the partial derivative *)
 Theorem C02_system_matrix_entry : forall rho lg (l1 l2 : list (Z * tree RD)) m eids cols i c eid t tok k,
